@@ -20,6 +20,31 @@ use std::collections::{BTreeMap, BTreeSet};
 pub enum Mode {
     Replay,
     Search,
+    /// C16 soundness: the integrity report of an untampered device is clean after every merge
+    Integrity,
+}
+
+/// The integrity report over every folder the device serves has no failure.
+pub async fn integrity_clean(w: &SyncWorld, d: usize, after: &str) -> CheckResult {
+    let (folders, account_id) = {
+        let a = w.devices[d].account.lock().await;
+        (a.list_folders().await.map_err(hf("harness/list-folders", "list_folders"))?, w.account_id)
+    };
+    let be = if w.cfg.db { "sqlite" } else { "fs" };
+    let target = crate::engine_acct::make_target(w.devices[d].temp.path(), w.cfg.db).await?.with_account_id(&account_id);
+    let rep = crate::prop_c16::drain_account(&target, &account_id, folders.clone(), 2).await?;
+    if rep.timed_out {
+        return Err(Failure::new(format!("c16/sync/{be}/report-never-completes"), format!("after {after}: the integrity report went silent")));
+    }
+    if let Some((fid, reason)) = rep.failures.first() {
+        let name = folders.iter().find(|f| f.id() == fid).map(|f| f.name().to_string()).unwrap_or_default();
+        let kind = reason.split(|c: char| !c.is_alphanumeric()).next().unwrap_or("failure").to_string();
+        return Err(Failure::new(
+            format!("c16/sync/{be}/untampered-device-flagged/{kind}"),
+            format!("after {after}: account_integrity on an untampered device reported {} failure(s); first: folder '{name}' ({fid}) {}", rep.failures.len(), reason.chars().take(240).collect::<String>()),
+        ));
+    }
+    Ok(())
 }
 
 /// R == M == P for every folder the device serves (decrypted).
@@ -210,6 +235,10 @@ async fn oracle(w: &SyncWorld, d: usize, mode: Mode, after: &str) -> CheckResult
     match mode {
         Mode::Replay => replay_views_equal(&*a, after).await,
         Mode::Search => index_matches_rebuilt(&*a, after).await,
+        Mode::Integrity => {
+            drop(a);
+            integrity_clean(w, d, after).await
+        }
     }
 }
 
@@ -328,8 +357,10 @@ pub fn run_sync_subcheck(shard: &Shard, rep: &mut Report, mode: Mode) {
     let cases = match mode {
         Mode::Replay => t.pick(160, 3_000),
         Mode::Search => t.pick(160, 3_000),
+        Mode::Integrity => t.pick(96, 2_000),
     };
-    drive(shard, rep, "sync", shard.share(cases), merge_case_strategy(), |c| check_merge_case(c, mode));
+    let name = if mode == Mode::Integrity { "sync-sound" } else { "sync" };
+    drive(shard, rep, name, shard.share(cases), merge_case_strategy(), |c| check_merge_case(c, mode));
 }
 
 pub fn replay_sync_subcheck(case: &Value, mode: Mode) -> CheckResult {
